@@ -86,7 +86,8 @@ def do_matrix(sents, out, maxitems, seed):
     args = []
     for k in range(0, min(len(ss), 36), 3):
         args.append(Argument(ss[k], ss[k + 1:k + 1 + k % 3]))
-    args += [Argument(ss[0], ss[1:3]), Argument(ss[0], ss[1:3])]
+    args += [Argument(ss[0], ss[1:3]), Argument(ss[0], ss[1:3]), Argument(ss[0], ss[1:3], title='titled'),
+             Argument(ss[0], ss[1:3], title='other title'), Argument(ss[3], (), title='t'), Argument(ss[3], ())]
     with open(out, 'w') as o:
         o.write(json.dumps(dict(matrix(items), rec='matrix', id='items')) + '\n')
         o.write(json.dumps(dict(matrix(args), rec='matrix', id='arguments')) + '\n')
